@@ -106,8 +106,16 @@ fn gen_many_blocks_session(rng: &mut Rng) -> SenderScn {
     spec.interleave = 1;
     spec.queues = vec![(0, 1)];
     spec.fdt_carousel = CarouselSpec::DelayMs(50);
-    let blocks = rng.range(2050, 4090);
-    let (scheme, e, b, parity) = if rng.chance(0.7) { (Scheme::NoCode, 16u16, 1u32, 0u32) } else { (Scheme::Rs28Us, 4u16, 1u32, 1u32) };
+    let mut blocks = rng.range(2050, 4090);
+    let (scheme, e, b, parity) = match rng.below(10) {
+        0..=5 => (Scheme::NoCode, 16u16, 1u32, 0u32),
+        6..=7 => (Scheme::Rs28Us, 4u16, 1u32, 1u32),
+        // Raptor signals the number of source blocks on 16 bits: more than 255 blocks of 4 symbols
+        _ => {
+            blocks = rng.range(257, 700);
+            (Scheme::Raptor, 4u16, 4u32, 1u32)
+        }
+    };
     let mut o = ObjectSpec::basic((blocks * b as u64 * e as u64) as usize, rng.next_u64(), 0);
     o.oti = Some(OtiSpec::new(scheme, e, b, parity, true));
     o.max_transfer_count = *rng.pick(&[1u32, 2]);
@@ -233,11 +241,11 @@ pub fn gen(idx: u64, tier: Tier, rng: &mut Rng) -> Scn {
     }
     let special = rng.below(100);
     let sender = match special {
-        0 => gen_many_blocks_session(rng),
-        1..=5 => gen_delisted_session(rng),
+        0..=1 => gen_many_blocks_session(rng),
+        2..=6 => gen_delisted_session(rng),
         _ => gen_sampled_session(rng),
     };
-    if special == 0 {
+    if special <= 1 {
         // a few packets lost (the first block, one late block), or the first FDT transmission
         let loss = if rng.chance(0.5) {
             Loss::Sampled { p_drop: 0.0003, burst: None, p_dup: 0.0, drop_first_fdt: true }
